@@ -51,6 +51,7 @@ struct bitset {
     /// \param zero alternate character for set bits in str
     /// \param one alternate character for unset bits in str
     /// \pre `pos <= str.size()`
+    /// \pre Each of the min(n, str.size() - pos) characters starting at pos is equal to zero or to one
     template <typename CharT, typename Traits>
     explicit constexpr bitset(
         basic_string_view<CharT, Traits> const& str,
@@ -63,6 +64,10 @@ struct bitset {
     {
         TETL_PRECONDITION(pos <= str.size());
         auto const len = etl::min<decltype(pos)>(n, str.size() - pos);
+        // every one of the len characters has to be zero or one [bitset.cons]
+        for (decltype(pos) i = 0; i < len; ++i) {
+            TETL_PRECONDITION(Traits::eq(str[pos + i], zero) or Traits::eq(str[pos + i], one));
+        }
         // only the first size() of the len characters are used [bitset.cons]
         auto const m = etl::min<decltype(pos)>(len, size());
 
